@@ -642,7 +642,9 @@ func (r *Ref) takeOpt(c config, o int) (config, bool) {
 }
 
 func (r *Ref) groupEnvAlone(c config, members []int) bool {
-	if !r.Q.GroupEnvAlone || c.ended || c.toks == "" {
+	// the relaxation is deliberately broader than what the library does today (it lets the environment satisfy a group
+	// only while tokens remain and options have not ended): the property leaves every such verdict unclaimed
+	if !r.Q.GroupEnvAlone {
 		return false
 	}
 	for _, o := range members {
